@@ -100,8 +100,18 @@ func check(c sim.ChainCase) error {
 	key := func(h uint64, id types.BlockID) string { return fmt.Sprintf("%d/%v", h, id) }
 	revertedAt := map[uint64]bool{}
 
+	// a second client keeps its own copy of every element and only ever refreshes it with UpdateElementProof of the
+	// apply and revert updates (it never takes elements from the diffs): after every revert its copies must be the
+	// proofs the restored store holds, i.e. verify against the parent state
+	fw := sim.NewFollowers(1 + len(c.Steps)%3)
 	hooks := sim.Hooks{
 		AfterApply: func(ch *sim.Chain, st *sim.Step, parent consensus.State, au consensus.ApplyUpdate) error {
+			if err := fw.Apply(au, ch.Tip().Elements.NumLeaves, ch.Store); err != nil {
+				return stats.Failf("C06/own-copies", "apply height %d: %v", ch.Height(), err)
+			}
+			if _, err := fw.AgreeWith(ch.Store); err != nil {
+				return stats.Failf("C06/own-copies", "after applying block %d: %v", ch.Height(), err)
+			}
 			var a applied
 			a.state = sim.StateBytes(ch.Tip())
 			a.sc, a.sf, a.fc, a.v2fc, a.ci = sim.CanonDiffs(au, false)
@@ -170,6 +180,14 @@ func check(c sim.ChainCase) error {
 			}
 			if err := liveAll(ch.Tip(), ch.Store); err != nil {
 				return stats.Failf("C06/revert-proofs", "after reverting block %d: %v", h, err)
+			}
+			if err := fw.Revert(ru, ch.Tip().Elements.NumLeaves); err != nil {
+				return stats.Failf("C06/own-copies", "revert of block %d: %v", h, err)
+			}
+			if n, err := fw.AgreeWith(ch.Store); err != nil {
+				return stats.Failf("C06/own-copies", "after reverting block %d: %v", h, err)
+			} else {
+				rec.Extra("own_copies_compared_after_revert", uint64(n))
 			}
 			return nil
 		},
